@@ -17,7 +17,7 @@ BOUND = [0, 1, 0x7FFF, 0x8000, 0xFFFF]
 
 def gen_states(tier, seed):
     rnd = random.Random(seed)
-    n = 3 if tier == "quick" else 40
+    n = 3 if tier == "quick" else 120
     states = []
     for k in range(n):
         regs = BOUND + [rnd.randrange(65536), rnd.randrange(65536)]
